@@ -191,6 +191,10 @@ pub struct GateCase {
     pub scenario: Scenario,
     /// actor to run at each decision point
     pub schedule: Vec<usize>,
+    /// signature observed (the order of tables inside a flush follows HashMap iteration, so a
+    /// replay re-explores the scenario until this signature shows up again)
+    #[serde(default)]
+    pub expect: String,
 }
 
 fn batch1() -> Batch {
@@ -316,7 +320,7 @@ pub fn run_schedule(sc: &Scenario, schedule: &[usize]) -> RunObs {
     };
 
     let patience = Duration::from_millis(std::env::var("LVMC_GATE_PATIENCE_MS").ok().and_then(|s| s.parse().ok()).unwrap_or(250));
-    let deadline = Instant::now() + Duration::from_secs(8);
+    let deadline = Instant::now() + Duration::from_secs(20);
     let mut current: Option<usize> = None;
     let mut background: BTreeSet<usize> = BTreeSet::new(); // running without having arrived (blocked or slow)
     let mut k = 0usize;
@@ -601,7 +605,7 @@ impl Engine for C10 {
     fn run_shard(&self, tier: Tier, shard: usize, nshards: usize, out: &mut ShardResult) {
         install_gate_controller();
         let bound = if tier == Tier::Quick { 2 } else { 3 };
-        let max_runs = if tier == Tier::Quick { 400 } else { 4000 };
+        let max_runs = if tier == Tier::Quick { 400 } else { 1500 };
         for (si, sc) in scenarios(tier).iter().enumerate() {
             if si % nshards != shard {
                 continue;
@@ -635,23 +639,14 @@ impl Engine for C10 {
                     sig: format!("C10:{}", sig),
                     what: format!("scenario {:?}, schedule {:?} (sync points: {:?}): {}", sc, choices, trace, what),
                     weight: choices.len() as u64,
-                    case: serde_json::to_value(GateCase { scenario: sc.clone(), schedule: choices }).unwrap(),
+                    case: serde_json::to_value(GateCase { scenario: sc.clone(), schedule: choices, expect: sig.clone() }).unwrap(),
                 });
             }
         }
     }
 
     fn replay(&self, case: &Value) -> Option<Violation> {
-        install_gate_controller();
-        let c: GateCase = serde_json::from_value(case.clone()).ok()?;
-        // the table order inside a flush may differ between runs: try the schedule a few times
-        for _ in 0..3 {
-            let obs = run_schedule(&c.scenario, &c.schedule);
-            if let Some((sig, what)) = obs.violation {
-                return Some(Violation { sig: format!("C10:{}", sig), what, weight: 1, case: case.clone() });
-            }
-        }
-        None
+        replay_gate_case_with("C10:", case)
     }
 }
 
@@ -694,20 +689,46 @@ pub fn run_restart_scenarios(prop: &str, tier: Tier, shard: usize, nshards: usiz
                 sig: format!("{}:schedule:{}", prop, sig),
                 what: format!("scenario {:?}, schedule {:?} (sync points: {:?}): {}", sc, choices, trace, what),
                 weight: choices.len() as u64,
-                case: serde_json::to_value(GateCase { scenario: sc.clone(), schedule: choices }).unwrap(),
+                case: serde_json::to_value(GateCase { scenario: sc.clone(), schedule: choices, expect: sig.clone() }).unwrap(),
             });
         }
     }
 }
 
 pub fn replay_gate_case(prop: &str, case: &Value) -> Option<Violation> {
+    replay_gate_case_with(&format!("{}:schedule:", prop), case)
+}
+
+/// Replays the recorded schedule; if the run does not show the recorded signature (table order
+/// inside the flush differs), re-explores the scenario until it does.
+pub fn replay_gate_case_with(prefix: &str, case: &Value) -> Option<Violation> {
     install_gate_controller();
     let c: GateCase = serde_json::from_value(case.clone()).ok()?;
-    for _ in 0..3 {
+    let mut other: Option<Violation> = None;
+    for _ in 0..2 {
         let obs = run_schedule(&c.scenario, &c.schedule);
         if let Some((sig, what)) = obs.violation {
-            return Some(Violation { sig: format!("{}:schedule:{}", prop, sig), what, weight: 1, case: case.clone() });
+            let v = Violation { sig: format!("{}{}", prefix, sig), what, weight: 1, case: case.clone() };
+            if c.expect.is_empty() || sig == c.expect {
+                return Some(v);
+            }
+            other = Some(v);
         }
     }
-    None
+    if !c.expect.is_empty() {
+        let mut found: Option<Violation> = None;
+        explore(&c.scenario, 3, 2500, |_, obs| {
+            if found.is_none() {
+                if let Some((sig, what)) = &obs.violation {
+                    if *sig == c.expect {
+                        found = Some(Violation { sig: format!("{}{}", prefix, sig), what: what.clone(), weight: 1, case: case.clone() });
+                    }
+                }
+            }
+        });
+        if found.is_some() {
+            return found;
+        }
+    }
+    other
 }
